@@ -7,7 +7,8 @@ From Verif.Model Require Import SseLegacy.
 Open Scope Z_scope.
 
 Definition sx_cfg (s : sexp) : cfg :=
-  Cfg (sx_bool (sx_nth 0 s)) (sx_bool (sx_nth 1 s)) (sx_bool (sx_nth 2 s)) (sx_bool (sx_nth 3 s)) (sx_bool (sx_nth 4 s)).
+  Cfg (sx_bool (sx_nth 0 s)) (sx_bool (sx_nth 1 s)) (sx_bool (sx_nth 2 s)) (sx_bool (sx_nth 3 s)) (sx_bool (sx_nth 4 s))
+      (sx_bool (sx_nth 5 s)) (sx_bool (sx_nth 6 s)).
 
 Definition sx_id (s : sexp) : id :=
   if sx_Z (sx_nth 0 s) =? 0 then IdInt (sx_Z (sx_nth 1 s)) else IdStr (sx_str (sx_nth 1 s)).
@@ -41,7 +42,7 @@ Definition sx_ev (s : sexp) : ev :=
   else ESse (sx_opt sx_msg (sx_nth 1 s)).
 
 Definition of_out (o : out) : sexp :=
-  Li [At (match fst o with FromSse => 0 | FromSender => 1 end); of_msg (snd o)].
+  Li [At (match fst o with FromSse => 0 | FromSender => 1 | FromHandoff => 2 end); of_msg (snd o)].
 
 Definition sx_chunk (s : sexp) : Z * str := (sx_Z (sx_nth 0 s), sx_str (sx_nth 1 s)).
 
@@ -70,7 +71,7 @@ Definition sx_lev (s : sexp) : lev :=
       LExit (if k =? 0 then XNormal else if k =? 1 then XException else if k =? 2 then XCancelTask else XCancelScope)
   end.
 
-Definition of_sender_idle (s : sender) : sexp := of_bool (match s with SIdle => true | _ => false end).
+Definition of_sender_idle (s : sstate) : sexp := of_bool (match s_task s with SIdle => true | _ => false end).
 
 Definition dispatch (s : sexp) : sexp :=
   let t := sx_tag s in
@@ -84,7 +85,7 @@ Definition dispatch (s : sexp) : sexp :=
   else if t =? 3 then          (* run cfg evs *)
     let c := sx_cfg (sx_arg 0 s) in
     let evs := map sx_ev (sx_list (sx_arg 1 s)) in
-    Li [of_list of_out (run c SIdle evs); of_sender_idle (final c SIdle evs)]
+    Li [of_list of_out (run c sinit evs); of_sender_idle (final c sinit evs)]
   else if t =? 4 then          (* life cfg levs *)
     let l := life (sx_cfg (sx_arg 0 s)) (map sx_lev (sx_list (sx_arg 1 s))) in
     let r := lr l in
@@ -102,4 +103,8 @@ Definition dispatch (s : sexp) : sexp :=
     of_bool (released_ok (Left (sx_Z (sx_arg 0 s)) (sx_Z (sx_arg 1 s)) (sx_Z (sx_arg 2 s)) (sx_Z (sx_arg 3 s))))
   else if t =? 14 then         (* sched_ok rid evs *)
     of_bool (sched_ok (sx_id (sx_arg 0 s)) (map sx_ev (sx_list (sx_arg 1 s))))
+  else if t =? 15 then         (* sched_ok_late rid evs *)
+    of_bool (sched_ok_late (sx_id (sx_arg 0 s)) (map sx_ev (sx_list (sx_arg 1 s))))
+  else if t =? 16 then         (* stream_due rid evs : what is due on the read stream from the event stream *)
+    of_list of_msg (stream_due (sx_id (sx_arg 0 s)) late_init (map sx_ev (sx_list (sx_arg 1 s))))
   else At (-999).
